@@ -164,6 +164,27 @@ Definition merge_multiple (st : truf) (from to : nat) (ib : list nat) : res (tru
   do _ <- dbgt (disjoint_ok st3);
   Ok (st3, from).
 
+(* add, the branch "there exists a back-edge, collapse for anti-symmetry" (trrel_union_find.rs:141-163):
+   st2 is the state after the two add_node_new calls, xs / ys the (different, old) classes of x / y *)
+Definition collapse_branch (st2 : truf) (x y xs ys : nat) : res (truf * bool) :=
+  do cy <- of_opt UnwrapNone (aget ys (t_conn st2));            (* self.set_connections[&y_set] *)
+  do rx <- of_opt UnwrapNone (aget xs (t_rev st2));             (* self.reverse_set_connections[&x_set] *)
+  let tbm := sadd ys (srem xs (sinter cy rx)) in
+  let rev1 := aset xs (sdiff rx tbm) (t_rev st2) in             (* keep_difference(rev[x_set], tbm) *)
+  let conn1 := aset ys (sdiff cy tbm) (t_conn st2) in           (* keep_difference(conn[y_set], tbm) *)
+  do cy1 <- of_opt UnwrapNone (aget ys conn1);
+  let conn2 := aset ys (srem xs cy1) conn1 in
+  do rx1 <- of_opt UnwrapNone (aget xs rev1);
+  let rev2 := aset xs (srem ys rx1) rev1 in
+  do (st3, _) <- add_set_connection (with_cr st2 conn2 rev2) xs ys;
+  let tbm2 := srem ys tbm in
+  do (st4, merged) <- merge_multiple st3 xs ys tbm2;
+  do _ <- of_opt UnwrapNone (aget x (t_ids st4));               (* elem_ids.get_mut(&x).unwrap() *)
+  let ids1 := aset x merged (t_ids st4) in
+  do _ <- of_opt UnwrapNone (aget y ids1);
+  let ids2 := aset y merged ids1 in
+  Ok (mkTr (t_sets st4) ids2 (t_subs st4) (t_conn st4) (t_rev st4), true).
+
 (* add *)
 Definition tr_add (st : truf) (x y : nat) : res (truf * bool) :=
   do (st1, xs, xn) <- add_node_new st x;
@@ -171,23 +192,7 @@ Definition tr_add (st : truf) (x y : nat) : res (truf * bool) :=
   if xn || yn then do (st3, _) <- add_set_connection st2 xs ys; Ok (st3, true)
   else if Nat.eqb xs ys then Ok (st2, false)
   else if (match aget ys (t_conn st2) with Some c => smem xs c | None => false end) then
-    do cy <- of_opt UnwrapNone (aget ys (t_conn st2));            (* self.set_connections[&y_set] *)
-    do rx <- of_opt UnwrapNone (aget xs (t_rev st2));             (* self.reverse_set_connections[&x_set] *)
-    let tbm := sadd ys (srem xs (sinter cy rx)) in
-    let rev1 := aset xs (sdiff rx tbm) (t_rev st2) in             (* keep_difference(rev[x_set], tbm) *)
-    let conn1 := aset ys (sdiff cy tbm) (t_conn st2) in           (* keep_difference(conn[y_set], tbm) *)
-    do cy1 <- of_opt UnwrapNone (aget ys conn1);
-    let conn2 := aset ys (srem xs cy1) conn1 in
-    do rx1 <- of_opt UnwrapNone (aget xs rev1);
-    let rev2 := aset xs (srem ys rx1) rev1 in
-    do (st3, _) <- add_set_connection (with_cr st2 conn2 rev2) xs ys;
-    let tbm2 := srem ys tbm in
-    do (st4, merged) <- merge_multiple st3 xs ys tbm2;
-    do _ <- of_opt UnwrapNone (aget x (t_ids st4));               (* elem_ids.get_mut(&x).unwrap() *)
-    let ids1 := aset x merged (t_ids st4) in
-    do _ <- of_opt UnwrapNone (aget y ids1);
-    let ids2 := aset y merged ids1 in
-    Ok (mkTr (t_sets st4) ids2 (t_subs st4) (t_conn st4) (t_rev st4), true)
+    collapse_branch st2 x y xs ys
   else do (st3, _) <- add_set_connection st2 xs ys; Ok (st3, true).
 
 Fixpoint tr_run (st : truf) (adds : list (nat * nat)) : res truf :=
